@@ -1,6 +1,8 @@
 import M3d.Lemmas.MeshDiag
 import M3d.Lemmas.MeshDiagHier
 import M3d.Lemmas.MeshDiagOrient
+import M3d.Lemmas.MeshDiagRepair
+import M3d.Lemmas.MeshDiagLink
 /-!
 # C11 — mesh diagnostics, repair and nesting agree with their definitions
 
@@ -124,6 +126,13 @@ theorem singular_vertices_eq (ts : List Tri) (hd : NoDegenerate ts) (v : Nat) :
     v ∈ singularVertices ts ↔ v ∈ verts ts ∧ ¬ FanGraphConnected ts v :=
   singular_iff ts hd v
 
+/-- The adjacency of that fan graph is "share an edge at `v`" — a common vertex other than `v`,
+the adjacency `ptrCoord.Clusters` uses (so `SingularVertices` and `Clusters` talk about the same
+graph; before fix 5660fd7 they did not: coincident faces were adjacent for `Clusters` only). -/
+theorem fan_adjacency_is_shared_edge_at_vertex {v : Nat} {s t : Face} (hs : TriNondeg s.2)
+    (hvs : hasVert v s.2 = true) (hvt : hasVert v t.2 = true) : fanAdj s t = adjAt v s t :=
+  fanAdj_eq_adjAt hs hvs hvt
+
 /-- Without any hypothesis on the faces: what the search leaves unvisited at `v` is exactly the
 set of faces at `v` that cannot be reached from the first one (`tris[0]`) through shared edges. -/
 theorem singular_search_exact (ts : List Tri) (v : Nat) (t : Face) (rest : List Face)
@@ -144,6 +153,35 @@ theorem clusters_partition (ts : List Tri) (p : Nat) :
     (∀ F ∈ clusters ts p, ∃ x ∈ F, ∀ y ∈ F, Reach (adjAt p) (facesAt p (enum ts)) x y) ∧
     (clusters ts p).Pairwise (fun F G => ∀ a ∈ F, ∀ b ∈ G, adjAt p a b = false) :=
   families_spec (adjAt p) _ _ (Nat.le_refl _) ((enum_nodup ts).filter _)
+
+/-- **`SingularVertices` and `ptrCoord.Clusters` agree** (no degenerate faces): a vertex is reported
+singular iff `Clusters` finds at least two families of faces at it ("a non-singular vertex has
+exactly one cluster", as `Clusters`' documentation promises). -/
+theorem singular_iff_clusters (ts : List Tri) (hd : NoDegenerate ts) (v : Nat) :
+    v ∈ singularVertices ts ↔ v ∈ verts ts ∧ 2 ≤ (clusters ts v).length := by
+  rw [singular_vertices_eq ts hd v, fanGraphConnected_iff_clusters ts hd v]
+  constructor
+  · rintro ⟨h1, h2⟩; exact ⟨h1, by omega⟩
+  · rintro ⟨h1, h2⟩; exact ⟨h1, by omega⟩
+
+/-- **Link to the shared surface library**: on a mesh without degenerate faces whose vertex links
+are single cycles (`Surface.FanConnected`, the vertex condition of `ClosedManifold` that the
+C01/C10 theorems establish for meshing and mesh-processing outputs) `SingularVertices` reports
+nothing.  (The converse — no singular vertex and edge-balanced ⇒ every link is one cycle — is
+not proved; the driver checks `fanConnected ts = (SingularVertices = ∅)` on every edge-balanced
+correspondence case.) -/
+theorem fan_connected_no_singular_vertices (ts : List Tri) (hd : NoDegenerate ts)
+    (hf : FanConnected ts) : singularVertices ts = [] := by
+  rw [List.eq_nil_iff_forall_not_mem]
+  intro v hv
+  obtain ⟨hvm, hnot⟩ := (singular_vertices_eq ts hd v).mp hv
+  exact hnot (fanGraphConnected_of_fanCycle ts hd v (hf v hvm))
+
+/-- A closed oriented manifold (`Surface.ClosedManifold`) passes all three 3-D diagnostics. -/
+theorem closed_manifold_diagnostics_clean (ts : List Tri) (h : ClosedManifold ts) :
+    needsRepair ts = false ∧ inconsistentEdges ts = [] ∧ singularVertices ts = [] :=
+  ⟨((edge_balanced_iff_clean ts h.2.2).mp h.1).1, ((edge_balanced_iff_clean ts h.2.2).mp h.1).2,
+    fan_connected_no_singular_vertices ts h.2.2 h.2.1⟩
 
 /-! ## orientation -/
 
@@ -203,6 +241,56 @@ example :
     (repairNormalsMajority [(0,2,1),(0,2,3),(0,3,1),(1,3,2)]).map (fun fl => fl.map fun g => g.map fun p => (p.1.1, p.2))
       = some [[(0,true),(1,false),(2,false),(3,false)]] ∧
     repairNormalsMajority [(0,1,3),(1,4,3),(1,2,4),(2,5,4),(2,3,5),(3,0,5)] = none := by
+  decide
+
+/-- **`RepairNormals` undoes exactly the flips the oracle sees** — with the even–odd containment
+test as the oracle `inside`: the output flips the faces with `inside f` and no other, and counts
+them; in particular if the mesh is some mesh `orig` with the faces flagged by `bad` flipped, and
+the oracle reports exactly those faces (`inside f = bad f.1`, a correct even–odd test on a closed
+non-intersecting surface), the output is `orig` again — clean whenever `orig` was. -/
+theorem repair_normals_restores (orig : List Tri) (bad : Nat → Bool) :
+    (repairNormals (fun f => bad f.1)
+        ((enum orig).map fun f => if bad f.1 then flipTri f.2 else f.2)).1 = orig ∧
+    (repairNormals (fun f => bad f.1)
+        ((enum orig).map fun f => if bad f.1 then flipTri f.2 else f.2)).2 = (enum orig).countP (fun f => bad f.1) := by
+  have key : ∀ (ts : List Tri) (n : Nat),
+      (enumFrom n ((enumFrom n ts).map fun f => if bad f.1 then flipTri f.2 else f.2)).map
+          (fun f => if bad f.1 then flipTri f.2 else f.2) = ts ∧
+      (enumFrom n ((enumFrom n ts).map fun f => if bad f.1 then flipTri f.2 else f.2)).countP (fun f => bad f.1)
+        = (enumFrom n ts).countP (fun f => bad f.1) := by
+    intro ts
+    induction ts with
+    | nil => intro n; simp [enumFrom]
+    | cons t ts ih =>
+      intro n
+      have ff : flipTri (flipTri t) = t := by obtain ⟨a, b, c⟩ := t; rfl
+      simp only [enumFrom, List.map_cons, List.countP_cons]
+      refine ⟨?_, ?_⟩
+      · rw [(ih (n + 1)).1]
+        cases hb : bad n <;> simp [ff]
+      · rw [(ih (n + 1)).2]
+  exact ⟨(key orig 0).1, (key orig 0).2⟩
+
+/-! ## vertex merging -/
+
+/-- **`Repair` identifies exactly the equivalence classes of "share a grid hash"** — for every
+hash assignment `hashOf` (the 2×2×2 block of rounded cells of a vertex; 2×2 in 2-D) and every
+`KeyRange` order `vs` of the vertices: two vertices are mapped to the same canonical vertex iff
+they are related by the equivalence closure of `linked` (a chain of vertices, consecutive ones
+sharing a hash); the canonical vertex of `a` is a vertex of the mesh in `a`'s own class. -/
+theorem repair_merges_classes {H : Type} [BEq H] [LawfulBEq H] (hashOf : Nat → List H)
+    (vs : List Nat) (hnd : vs.Nodup) (a b : Nat) (ha : a ∈ vs) (hb : b ∈ vs) :
+    (canonOf (repairClasses hashOf vs) a = canonOf (repairClasses hashOf vs) b ↔
+      Reach (linked hashOf) vs a b) ∧
+    canonOf (repairClasses hashOf vs) a ∈ vs ∧
+    Reach (linked hashOf) vs a (canonOf (repairClasses hashOf vs) a) :=
+  ⟨canonOf_eq_iff hashOf vs hnd a b ha hb, canonOf_mem hashOf vs hnd a ha⟩
+
+/-- Non-vacuity: cells 0,1 | 1,2 | 5 — the first two vertices chain together, the third stays. -/
+example :
+    let hashOf : Nat → List Nat := fun v => if v = 0 then [0, 1] else if v = 1 then [1, 2] else [5, 6]
+    (repairClasses hashOf [0, 1, 2]).map (fun k => (k.elements, k.canonical)) = [([1, 0], 1), ([2], 2)] ∧
+    repair hashOf [0, 1, 2] [(0, 1, 2)] = [(1, 1, 2)] := by
   decide
 
 /-! ## hierarchy -/
